@@ -178,4 +178,24 @@ theorem run_terminates (n : Nat) (c : Cfg) (h : mu c ≤ n) : (run n c).stk = []
       have := mu_step_lt c he
       omega
 
+/-! ### the zero loop of HeapAlloc -/
+
+theorem zeroLoop_spec (k ptr : Nat) (m : Mem) (x : Nat) :
+    zeroLoop k ptr m x = if ptr ≤ x ∧ x < ptr + 8 * k then 0 else m x := by
+  induction k generalizing m with
+  | zero =>
+    simp only [zeroLoop]
+    have : ¬ (ptr ≤ x ∧ x < ptr + 8 * 0) := by omega
+    rw [if_neg this]
+  | succ k ih =>
+    simp only [zeroLoop, ih, store64z]
+    by_cases h1 : ptr ≤ x ∧ x < ptr + 8 * k
+    · have h2 : ptr ≤ x ∧ x < ptr + 8 * (k + 1) := ⟨h1.1, by omega⟩
+      simp [h1, h2]
+    · by_cases h3 : ptr + 8 * k ≤ x ∧ x < ptr + 8 * k + 8
+      · have h2 : ptr ≤ x ∧ x < ptr + 8 * (k + 1) := ⟨by omega, by omega⟩
+        simp [h2, h3]
+      · have h2 : ¬ (ptr ≤ x ∧ x < ptr + 8 * (k + 1)) := by omega
+        simp [h1, h2, h3]
+
 end WaVerif.C11
